@@ -19,7 +19,8 @@ PACKAGE = "numpoly"
 
 
 class Module:
-    def __init__(self, name: str, relpath: str, src: str, is_package: bool):
+    def __init__(self, name: str, relpath: str, src: str, is_package: bool, sources: Optional[Dict[str, str]] = None):
+        self.sources = sources or {}  # relpath -> text of every analysed file (private helpers imported from siblings)
         self.name = name
         self.relpath = relpath
         self.src = src
@@ -38,11 +39,11 @@ class Module:
         except SyntaxError as exc:
             raise AnalysisError(f"cannot parse {relpath}: {exc}") from exc
         if not self.is_pyx:
-            self.tree = _Walrus().visit(_Canonical(os.path.basename(relpath)[:-3]).visit(self.tree))
+            self.tree = _WhileIndex().visit(_Walrus().visit(_Canonical(os.path.basename(relpath)[:-3]).visit(self.tree)))
             ast.fix_missing_locations(self.tree)
         self.raw_tree = ast.parse(pysrc, filename=relpath)  # never inlined (anchored rules on helper calls)
         if not self.is_pyx:
-            self.raw_tree = _Walrus().visit(_Canonical(os.path.basename(relpath)[:-3]).visit(self.raw_tree))
+            self.raw_tree = _WhileIndex().visit(_Walrus().visit(_Canonical(os.path.basename(relpath)[:-3]).visit(self.raw_tree)))
             ast.fix_missing_locations(self.raw_tree)
         for node in ast.walk(self.raw_tree):
             for child in ast.iter_child_nodes(node):
@@ -61,6 +62,7 @@ class Module:
         from .inline import inlinable_helpers, inline_function
 
         helpers = inlinable_helpers(self.tree)
+        helpers.update(self._imported_helpers(helpers))
         used_all = set()
 
         def process(body):
@@ -85,6 +87,67 @@ class Module:
                         remaining += 1
             if remaining == 0:
                 self.absorbed.add(name)
+
+    def _imported_helpers(self, own) -> Dict[str, ast.FunctionDef]:
+        """Private helpers imported from a sibling module (``from .maximum import _coefficient_pairs``) are inlined like
+        local ones when every global name they use is bound by an identical import in this module."""
+        from .inline import inlinable_helpers
+
+        out: Dict[str, ast.FunctionDef] = {}
+        my_imports = {ast.unparse(n) for n in self.tree.body if isinstance(n, (ast.Import, ast.ImportFrom))}
+        my_bound = set()
+        for n in self.tree.body:
+            if isinstance(n, (ast.Import, ast.ImportFrom)):
+                for alias in n.names:
+                    my_bound.add((alias.asname or alias.name).split(".")[0])
+        for node in self.tree.body:
+            if not (isinstance(node, ast.ImportFrom) and node.level >= 1 and node.module):
+                continue
+            wanted = [a for a in node.names if a.name.startswith("_") and not a.name.startswith("__")]
+            if not wanted:
+                continue
+            base = self.relpath.split(os.sep)[:-1]
+            base = base[: len(base) - (node.level - 1)] if node.level > 1 else base
+            rel = os.sep.join(base + node.module.split(".")) + ".py"
+            src = self.sources.get(rel)
+            if src is None:
+                continue
+            try:
+                tree = ast.parse(src)
+            except SyntaxError:
+                continue
+            tree = _WhileIndex().visit(_Walrus().visit(_Canonical(os.path.basename(rel)[:-3]).visit(tree)))
+            ast.fix_missing_locations(tree)
+            theirs = inlinable_helpers(tree)
+            their_imports = {}
+            for n in tree.body:
+                if isinstance(n, (ast.Import, ast.ImportFrom)):
+                    for alias in n.names:
+                        their_imports[(alias.asname or alias.name).split(".")[0]] = ast.unparse(n)
+            for alias in wanted:
+                helper = theirs.get(alias.name)
+                if helper is None or (alias.asname or alias.name) in own:
+                    continue
+                local = {a.arg for a in helper.args.posonlyargs + helper.args.args + helper.args.kwonlyargs}
+                local |= {n.id for n in ast.walk(helper) if isinstance(n, ast.Name) and isinstance(n.ctx, ast.Store)}
+                free = {n.id for n in ast.walk(helper) if isinstance(n, ast.Name) and isinstance(n.ctx, ast.Load)} - local
+                import builtins
+
+                ok = True
+                for name in free:
+                    if hasattr(builtins, name):
+                        continue
+                    if name in their_imports and name in my_bound:
+                        # bound by an import in both modules: it must be the same import
+                        same = any(name == (a.asname or a.name).split(".")[0] and ast.unparse(n) in my_imports
+                                   for n in tree.body if isinstance(n, (ast.Import, ast.ImportFrom)) for a in n.names) \
+                            or their_imports[name].split(" import ")[0] in ("import numpy", "import numpoly") and name in my_bound
+                        ok = ok and (same or name in ("numpy", "numpoly"))
+                    else:
+                        ok = False
+                if ok:
+                    out[alias.asname or alias.name] = helper
+        return out
 
     def _index_functions(self, node: ast.AST, prefix: str) -> None:
         for child in ast.iter_child_nodes(node):
@@ -248,6 +311,11 @@ class _Canonical(ast.NodeTransformer):
                 rest = list(rest[0].elts) + rest[1:]
             new = ast.Call(func=ast.Attribute(value=recv, attr=func.attr, ctx=ast.Load()), args=rest, keywords=list(node.keywords))
             return ast.copy_location(new, node)
+        # numpy.transpose(x) with no axes is x.T
+        if isinstance(func, ast.Attribute) and isinstance(func.value, ast.Name) and func.value.id in ("numpy", "np") \
+                and func.attr == "transpose" and len(node.args) == 1 and not node.keywords and self.basename != "transpose" \
+                and not isinstance(node.args[0], (ast.Starred, ast.List, ast.Tuple, ast.ListComp)):
+            return ast.copy_location(ast.Attribute(value=node.args[0], attr="T", ctx=ast.Load()), node)
         if isinstance(func, ast.Attribute) and func.attr in ("any", "all") and not (
             isinstance(func.value, ast.Name) and func.value.id in ("numpy", "np", "numpoly", "builtins")
         ):
@@ -257,6 +325,126 @@ class _Canonical(ast.NodeTransformer):
                 keywords=list(node.keywords),
             )
             return ast.copy_location(new, node)
+        return node
+
+
+class _WhileIndex(ast.NodeTransformer):
+    """``i = A; while i < len(S): <body>; i += 1`` is the index loop ``for i in range(A, len(S)): <body>`` (A a
+    non-negative integer literal; the body does not otherwise assign i and has no ``continue``; i is not read after
+    the loop).  The for-form is what the path interpreter binds positions and elements for."""
+
+    def _block(self, stmts):
+        out = []
+        idx = 0
+        while idx < len(stmts):
+            stmt = stmts[idx]
+            new = None
+            if isinstance(stmt, ast.While) and out:
+                new = self._convert(out, stmt, stmts[idx + 1:])
+            if new is not None:
+                init_pos, loop = new
+                del out[init_pos]
+                out.append(loop)
+            else:
+                out.append(stmt)
+            idx += 1
+        return out
+
+    @staticmethod
+    def _convert_pre_increment(before, loop):
+        """``i = -1; while i + 1 < len(S): i += 1; <body>``  ->  ``for i in range(len(S)): <body>``"""
+        test = loop.test
+        if not (isinstance(test, ast.Compare) and len(test.ops) == 1 and isinstance(test.ops[0], ast.Lt)
+                and isinstance(test.left, ast.BinOp) and isinstance(test.left.op, ast.Add) and isinstance(test.left.left, ast.Name)
+                and isinstance(test.left.right, ast.Constant) and test.left.right.value == 1
+                and isinstance(test.comparators[0], ast.Call) and isinstance(test.comparators[0].func, ast.Name)
+                and test.comparators[0].func.id == "len" and len(test.comparators[0].args) == 1):
+            return None
+        var = test.left.left.id
+        body = loop.body
+        first = body[0] if body else None
+        if not (isinstance(first, ast.AugAssign) and isinstance(first.op, ast.Add) and isinstance(first.target, ast.Name)
+                and first.target.id == var and isinstance(first.value, ast.Constant) and first.value.value == 1):
+            return None
+        for node in [n for st in body[1:] for n in ast.walk(st)]:
+            if isinstance(node, ast.Name) and node.id == var and isinstance(node.ctx, ast.Store):
+                return None
+        init_pos = None
+        for pos in range(len(before) - 1, -1, -1):
+            st = before[pos]
+            if isinstance(st, ast.Assign) and len(st.targets) == 1 and isinstance(st.targets[0], ast.Name) and st.targets[0].id == var \
+                    and isinstance(st.value, ast.UnaryOp) and isinstance(st.value.op, ast.USub) \
+                    and isinstance(st.value.operand, ast.Constant) and st.value.operand.value == 1:
+                init_pos = pos
+                break
+            if isinstance(st, ast.Assign) and len(st.targets) == 1 and isinstance(st.targets[0], ast.Name) and st.targets[0].id == var \
+                    and isinstance(st.value, ast.Constant) and st.value.value == -1:
+                init_pos = pos
+                break
+            if any(isinstance(n, ast.Name) and n.id == var for n in ast.walk(st)):
+                return None
+        if init_pos is None:
+            return None
+        rng = ast.Call(func=ast.Name(id="range", ctx=ast.Load()), args=[test.comparators[0]], keywords=[])
+        new = ast.For(target=ast.Name(id=var, ctx=ast.Store()), iter=rng, body=body[1:] or [ast.Pass()], orelse=loop.orelse,
+                      type_comment=None)
+        ast.copy_location(new, loop)
+        ast.fix_missing_locations(new)
+        return init_pos, new
+
+    @staticmethod
+    def _convert(before, loop, after):
+        pre = _WhileIndex._convert_pre_increment(before, loop)
+        if pre is not None:
+            return pre
+        test = loop.test
+        if not (isinstance(test, ast.Compare) and len(test.ops) == 1 and isinstance(test.ops[0], (ast.Lt, ast.NotEq))
+                and isinstance(test.left, ast.Name) and isinstance(test.comparators[0], ast.Call)
+                and isinstance(test.comparators[0].func, ast.Name) and test.comparators[0].func.id == "len"
+                and len(test.comparators[0].args) == 1):
+            return None
+        var = test.left.id
+        body = loop.body
+        last = body[-1] if body else None
+        if not (isinstance(last, ast.AugAssign) and isinstance(last.op, ast.Add) and isinstance(last.target, ast.Name)
+                and last.target.id == var and isinstance(last.value, ast.Constant) and last.value.value == 1):
+            return None
+        for node in [n for st in body[:-1] for n in ast.walk(st)]:
+            if isinstance(node, ast.Continue) or (isinstance(node, ast.Name) and node.id == var and isinstance(node.ctx, ast.Store)):
+                return None
+        if any(isinstance(n, ast.Name) and n.id == var and isinstance(n.ctx, ast.Load) for st in after for n in ast.walk(st)):
+            return None
+        # the initialisation: the closest preceding 'var = <int literal>' with no other mention of var in between
+        init_pos = None
+        for pos in range(len(before) - 1, -1, -1):
+            st = before[pos]
+            if isinstance(st, ast.Assign) and len(st.targets) == 1 and isinstance(st.targets[0], ast.Name) and st.targets[0].id == var \
+                    and isinstance(st.value, ast.Constant) and isinstance(st.value.value, int) and not isinstance(st.value.value, bool) \
+                    and st.value.value >= 0:
+                init_pos = pos
+                break
+            if any(isinstance(n, ast.Name) and n.id == var for n in ast.walk(st)):
+                return None
+        if init_pos is None:
+            return None
+        start = before[init_pos].value
+        args = [test.comparators[0]] if start.value == 0 else [start, test.comparators[0]]
+        rng = ast.Call(func=ast.Name(id="range", ctx=ast.Load()), args=args, keywords=[])
+        new = ast.For(target=ast.Name(id=var, ctx=ast.Store()), iter=rng, body=body[:-1] or [ast.Pass()], orelse=loop.orelse,
+                      type_comment=None)
+        ast.copy_location(new, loop)
+        ast.fix_missing_locations(new)
+        return init_pos, new
+
+    def generic_visit(self, node):
+        for field, value in ast.iter_fields(node):
+            if isinstance(value, list) and value and isinstance(value[0], ast.stmt):
+                value = [self.visit(v) for v in value]
+                setattr(node, field, self._block(value))
+            elif isinstance(value, list):
+                setattr(node, field, [self.visit(v) if isinstance(v, ast.AST) else v for v in value])
+            elif isinstance(value, ast.AST):
+                setattr(node, field, self.visit(value))
         return node
 
 
@@ -489,7 +677,7 @@ class Repo:
             if name in self.modules:
                 # a .py and a .pyx of the same name: keep both, .pyx under its name
                 raise AnalysisError(f"duplicate module {name}")
-            module = Module(name, rel, src, is_package)
+            module = Module(name, rel, src, is_package, sources)
             self.modules[name] = module
             self.by_relpath[rel] = module
 
